@@ -59,6 +59,8 @@ open TxVerif
 #print axioms concF_fail_unobservable
 #print axioms concF_lock_released
 #print axioms concF_linearizable_partial
+#print axioms concF_linearizable
+#print axioms concF_step_linearizable
 #print axioms concF_example_fail_retry
 #print axioms concF_pFail_inv
 #print axioms concF_cFail_inv
